@@ -116,6 +116,9 @@ func hostcall(self *VM, function string, span errors.Span, args []*value.Value) 
 	switch function {
 	case "__internal_list_push":
 		elem := args[0]
+		// The list gets a cell of its own: assigning to the element must not overwrite the variable the value came from.
+		elemOwned := *elem
+		elem = &elemOwned
 		list := (*args[1]).(value.ValueList)
 
 		(*list.Values) = append((*list.Values), elem)
